@@ -80,6 +80,23 @@ identity for the drop accounting; the made-up value has none, so the equalities 
 `size_of::<T>() ≠ 0` and the zero-sized branch is characterised separately) -/
 def zst_any : Elem := default
 
+/-- a call that may unwind, in a method that reports unwinding as a value (`handler` builds that value from the frame) -/
+@[inline] def bindK {α β : Type} (x : VW × Outcome α) (handler : VW → VW × Outcome β) (f : VW → α → VW × Outcome β) : VW × Outcome β :=
+  match x with
+  | (s, .ok a) => f s a
+  | (s, .err) => (s, .err)
+  | (s, .panic) => handler s
+  | (s, .bad w) => (s, .bad w)
+  | (s, .envBad) => (s, .envBad)
+
+/-- the state a guard's destructor leaves behind while unwinding -/
+def stateOf {α : Type} (x : VW × Outcome α) : VW := x.1
+
+/-- `ptr::copy_nonoverlapping(p.add(src), p.add(dst), n)` inside one buffer -/
+def copy_nonoverlapping (c : Cfg) (src dst n : Nat) (s : VW) : VW × Outcome Unit :=
+  if src + n ≤ dst ∨ dst + n ≤ src then (s.1.copy c src dst n s.2, .ok ())
+  else (s, .bad "copy_nonoverlapping on overlapping ranges")
+
 /-- drop glue of an owned local while unwinding (a second panic here would abort the process) -/
 def drop_elem (c : Cfg) (e : Elem) (s : VW) : VW := (s.1, (dropElem c s.2 e).1)
 
